@@ -601,7 +601,12 @@ class _TreeEnsembleRegressor(StandardNode):
             n = shape[0]
         else:
             n = None
-        e = self.attrs.n_targets.value if self.attrs.n_targets is not None else None
+        # (a numpy integer is a fine attribute value but not a shape element)
+        e = (
+            int(self.attrs.n_targets.value)
+            if self.attrs.n_targets is not None
+            else None
+        )
         return {"Y": Tensor(np.float32, (n, e))}
 
     op_type = OpType("TreeEnsembleRegressor", "ai.onnx.ml", 3)
